@@ -120,6 +120,7 @@ type Unit struct {
 	axCache      map[*Axiom]axEntry
 	ghostTy      map[string]types.Type
 	events       map[int]havocEvent
+	eventWhy     string
 	topFrame     *Frame
 	cellFns      map[*Cell]Val
 }
